@@ -33,7 +33,9 @@
 EXTENDS TerminationGuards, Json
 
 CONSTANTS Pods,          \* pod names
-          Tol,           \* subset of Pods that tolerate the disruption taint (they may bind late, the others may not)
+          Tol,           \* subset of Pods that tolerate the disruption taint
+          Late,          \* subset of Pods that are not on the node at first and may be bound to it at ANY time, tainted or not
+                         \* (a pod created with spec.nodeName bypasses kube-scheduler and the NoSchedule taint)
           Starts,        \* subset of {"registered", "launched", "unpersisted", "fresh"}
           VaOwners,      \* subset of Pods \cup {"-", "orphan"}: who owns the node's VolumeAttachment ("-": none)
           TGPs,          \* subset of BOOLEAN: the NodeClaim has a terminationGracePeriod
@@ -43,6 +45,7 @@ CONSTANTS Pods,          \* pod names
           Atomic,        \* TRUE: no foreign step inside a reconcile
           FinalizeMode,  \* "code": finalize trusts status.providerID only; "cache": it also consults the launch cache
           Weak           \* spec mutation: "" | "deleteOkIsGone" | "skipVolumes" | "claimIgnoresNodes" | "skipDrain" | "noTaint"
+                         \*   | "drainCached" (no drain pass once Drained=True is persisted) | "skipDetachingVolumes"
 
 VARIABLES nc, node, pod, va, inst, cache, everCreated, provGone, lostLaunch, queued, tgpElapsed, drainOld, lc, nt, faults, restarts, spont, par, h
 vars == <<nc, node, pod, va, inst, cache, everCreated, provGone, lostLaunch, queued, tgpElapsed, drainOld, lc, nt, faults, restarts, spont, par, h>>
@@ -56,7 +59,7 @@ NoClaim == [exists |-> FALSE, fin |-> FALSE, del |-> FALSE, reg |-> FALSE, pid |
 NoNode == [exists |-> FALSE, fin |-> FALSE, del |-> FALSE, tainted |-> FALSE, ready |-> FALSE]
 LcIdle == [pc |-> "idle", m |-> NoClaim, lp |-> "-", res |-> "-", patched |-> FALSE]
 NoObs == [pods |-> {}, vas |-> {}, elapsed |-> FALSE]
-NtIdle == [pc |-> "idle", n |-> NoNode, c0 |-> NoClaim, c |-> NoClaim, res |-> "-", patched |-> FALSE, obs |-> NoObs]
+NtIdle == [pc |-> "idle", n |-> NoNode, c0 |-> NoClaim, c |-> NoClaim, res |-> "-", patched |-> FALSE, obs |-> NoObs, obsD |-> {}]
 
 Hist(e) == Len(h) < MaxLen /\ h' = Append(h, e)
 Idle == lc.pc = "idle" /\ nt.pc = "idle"
@@ -78,7 +81,8 @@ AbsPod(p) == [name |-> p, phase |-> "Running", deleting |-> pod[p].st \in {"term
               toleratesDisruption |-> p \in Tol, owner |-> "replicaset"]
 OnNode(p) == pod[p].st \in {"run", "term", "stuck"}
 PodsOnNode == {AbsPod(p) : p \in {q \in Pods : OnNode(q)}}
-Vas == IF va THEN {[pv |-> "pv", node |-> "node-1"]} ELSE {}
+\* va: "none" | "attached" | "detaching" (deletion requested, the object still exists while the detach runs)
+Vas == IF va # "none" THEN {[pv |-> "pv", node |-> "node-1", deleting |-> va = "detaching"]} ELSE {}
 PodPV == [p \in Pods |-> IF par.vaOwner = p THEN "pv" ELSE "-"]
 GonePids == IF provGone THEN {Pid} ELSE {}
 Created == IF everCreated THEN {Pid} ELSE {}
@@ -97,8 +101,8 @@ Init ==
       /\ par = [start |-> kind, vaOwner |-> vo, tgp |-> tgp, instant |-> instant]
       /\ nc = ClaimAt(kind)
       /\ node = IF kind = "registered" THEN [exists |-> TRUE, fin |-> TRUE, del |-> FALSE, tainted |-> FALSE, ready |-> TRUE] ELSE NoNode
-      /\ pod = [p \in Pods |-> [st |-> IF kind = "registered" /\ p \notin Tol THEN "run" ELSE "absent"]]
-      /\ va = (kind = "registered" /\ vo # "-")
+      /\ pod = [p \in Pods |-> [st |-> IF kind = "registered" /\ p \notin Late THEN "run" ELSE "absent"]]
+      /\ va = IF kind = "registered" /\ vo # "-" THEN "attached" ELSE "none"
       /\ inst = IF kind = "fresh" THEN "none" ELSE "running"
       /\ cache = (kind = "unpersisted")
       /\ everCreated = (kind # "fresh")
@@ -197,7 +201,7 @@ LcPersistLaunch ==
 NtBegin ==
     /\ nt.pc = "idle" /\ (Atomic => lc.pc = "idle")
     /\ node.exists /\ node.del /\ node.fin
-    /\ nt' = [NtIdle EXCEPT !.pc = "listClaims", !.n = node, !.obs = Obs]
+    /\ nt' = [NtIdle EXCEPT !.pc = "listClaims", !.n = node, !.obs = Obs, !.obsD = PodsOnNode]
     /\ Hist([a |-> "NodeRec"])
     /\ UNCHANGED <<nc, node, pod, va, inst, cache, everCreated, provGone, lostLaunch, queued, tgpElapsed, drainOld, lc, faults, restarts, spont, par>>
 
@@ -239,22 +243,26 @@ NtTaint(f) ==
                     /\ nt' = [nt EXCEPT !.pc = "drain", !.n = node', !.patched = TRUE]
     /\ UNCHANGED <<nc, pod, va, inst, cache, everCreated, provGone, lostLaunch, queued, tgpElapsed, drainOld, lc, restarts, spont, par>>
 
+\* obsD: the pods the drain pass listed (at the begin of the reconcile if it does not list): the drain answers for these
 NtDrain(f) ==
     /\ nt.pc = "drain"
-    /\ Fault(f, "nt", "listPods", 1)
-    /\ LET waiting == IF Weak = "skipDrain" THEN {}
-                      ELSE {p \in Pods : p \notin Tol /\ pod[p].st \in {"run", "term"}}
-           hasC == nt.c.exists
-           \* an Unknown set in this reconcile is new; a persisted one is old once MinDrainTime has passed
-           fresh == hasC /\ nt.c.drained = "Absent"
-           c1 == IF fresh THEN [nt.c EXCEPT !.drained = "Unknown"] ELSE nt.c
-       IN IF f = "err" THEN nt' = NtIdle /\ UNCHANGED queued
-          ELSE IF waiting # {}
-          THEN queued' = queued \cup waiting /\ nt' = [nt EXCEPT !.c = c1, !.res = "requeue", !.pc = "patch"]
-          ELSE IF hasC /\ c1.drained = "Unknown" /\ (fresh \/ ~drainOld)
-          THEN nt' = [nt EXCEPT !.c = c1, !.res = "requeue", !.pc = "patch"] /\ UNCHANGED queued
-          ELSE /\ nt' = [nt EXCEPT !.c = IF hasC THEN [c1 EXCEPT !.drained = "True"] ELSE c1, !.pc = "volumes"]
-               /\ UNCHANGED queued
+    /\ IF Weak = "drainCached" /\ nt.c.exists /\ nt.c.drained = "True"
+       THEN NoCall(f) /\ nt' = [nt EXCEPT !.pc = "volumes"] /\ UNCHANGED queued
+       ELSE
+       /\ Fault(f, "nt", "listPods", 1)
+       /\ LET waiting == IF Weak = "skipDrain" THEN {}
+                         ELSE {p \in Pods : p \notin Tol /\ pod[p].st \in {"run", "term"}}
+              hasC == nt.c.exists
+              \* an Unknown set in this reconcile is new; a persisted one is old once MinDrainTime has passed
+              fresh == hasC /\ nt.c.drained = "Absent"
+              c1 == IF fresh THEN [nt.c EXCEPT !.drained = "Unknown"] ELSE nt.c
+          IN IF f = "err" THEN nt' = NtIdle /\ UNCHANGED queued
+             ELSE IF waiting # {}
+             THEN queued' = queued \cup waiting /\ nt' = [nt EXCEPT !.c = c1, !.res = "requeue", !.pc = "patch", !.obsD = PodsOnNode]
+             ELSE IF hasC /\ c1.drained = "Unknown" /\ (fresh \/ ~drainOld)
+             THEN nt' = [nt EXCEPT !.c = c1, !.res = "requeue", !.pc = "patch", !.obsD = PodsOnNode] /\ UNCHANGED queued
+             ELSE /\ nt' = [nt EXCEPT !.c = IF hasC THEN [c1 EXCEPT !.drained = "True"] ELSE c1, !.pc = "volumes", !.obsD = PodsOnNode]
+                  /\ UNCHANGED queued
     /\ UNCHANGED <<nc, node, pod, va, inst, cache, everCreated, provGone, lostLaunch, tgpElapsed, drainOld, lc, restarts, spont, par>>
 
 NtVolumes(f) ==
@@ -262,7 +270,7 @@ NtVolumes(f) ==
     /\ Fault(f, "nt", "listVolumes", 1)
     /\ LET vo == par.vaOwner
            \* the attachment of a pod that cannot be drained does not block
-           blocking == /\ va /\ Weak # "skipVolumes"
+           blocking == /\ va # "none" /\ Weak # "skipVolumes" /\ ~(Weak = "skipDetachingVolumes" /\ va = "detaching")
                        /\ ~(vo \in Pods /\ OnNode(vo) /\ (vo \in Tol \/ Stuck_(vo)))
            elapsed == nt.c.exists /\ nt.c.ann /\ tgpElapsed
            hasC == nt.c.exists
@@ -336,9 +344,9 @@ PodGone(p) ==
     /\ (IF pod[p].st = "run" THEN Spont ELSE UNCHANGED spont)     \* a running pod leaves by itself / the kubelet finishes a terminating one
     /\ Hist([a |-> "PodGone", pod |-> p])
     /\ UNCHANGED <<nc, node, va, inst, cache, everCreated, provGone, lostLaunch, queued, tgpElapsed, drainOld, lc, nt, faults, restarts, par>>
-\* kube-scheduler honours the NoSchedule taint: only tolerating pods bind to a node being terminated
+\* kube-scheduler honours the NoSchedule taint, but a pod may be bound directly (spec.nodeName): any Late pod, at any time
 PodBinds(p) ==
-    /\ EnvOK /\ p \in Tol /\ pod[p].st = "absent" /\ node.exists
+    /\ EnvOK /\ p \in Late /\ pod[p].st = "absent" /\ node.exists
     /\ pod' = [pod EXCEPT ![p] = [st |-> "run"]]
     /\ Hist([a |-> "PodBinds", pod |-> p])
     /\ UNCHANGED <<nc, node, va, inst, cache, everCreated, provGone, lostLaunch, queued, tgpElapsed, drainOld, lc, nt, faults, restarts, spont, par>>
@@ -347,8 +355,13 @@ PodStuck(p) ==
     /\ pod' = [pod EXCEPT ![p] = [st |-> "stuck"]]
     /\ Hist([a |-> "PodStuck", pod |-> p])
     /\ UNCHANGED <<nc, node, va, inst, cache, everCreated, provGone, lostLaunch, queued, tgpElapsed, drainOld, lc, nt, faults, restarts, spont, par>>
+\* the attach-detach controller deletes the VolumeAttachment; the object stays while the CSI detach runs
+VolumeDetachStart ==
+    /\ EnvOK /\ va = "attached" /\ va' = "detaching"
+    /\ Hist([a |-> "VolumeDetachStart"])
+    /\ UNCHANGED <<nc, node, pod, inst, cache, everCreated, provGone, lostLaunch, queued, tgpElapsed, drainOld, lc, nt, faults, restarts, spont, par>>
 VolumeDetach ==
-    /\ EnvOK /\ va /\ va' = FALSE
+    /\ EnvOK /\ va # "none" /\ va' = "none"
     /\ Hist([a |-> "VolumeDetach"])
     /\ UNCHANGED <<nc, node, pod, inst, cache, everCreated, provGone, lostLaunch, queued, tgpElapsed, drainOld, lc, nt, faults, restarts, spont, par>>
 InstGone ==
@@ -395,7 +408,7 @@ Controller ==
          \/ NtProvDelete(f) \/ NtPatch(f) \/ NtRemoveFin(f)
 Environment ==
     \/ \E p \in Pods : QRec(p) \/ PodGone(p) \/ PodBinds(p) \/ PodStuck(p)
-    \/ UserDeleteClaim \/ UserDeleteNode \/ VolumeDetach \/ InstGone \/ InstVanish \/ NotReady \/ Ready \/ TgpElapses \/ DrainTimePasses \/ Restart
+    \/ UserDeleteClaim \/ UserDeleteNode \/ VolumeDetachStart \/ VolumeDetach \/ InstGone \/ InstVanish \/ NotReady \/ Ready \/ TgpElapses \/ DrainTimePasses \/ Restart
 Next == Controller \/ Environment
 Spec == Init /\ [][Next]_vars
 
@@ -430,7 +443,7 @@ Inv_C09_NoLeakStrict == ~nc.exists => NoLeak(Created, InstTable)
 ClaimOfNode == nc.exists /\ nc.pid = Pid
 Act_C09_NodeFinalizer ==
     [][ (node.exists /\ node.fin /\ ~node'.exists /\ nt.pc = "removeFin" /\ ClaimOfNode)
-          => G_C09_NodeFinalizer(AbsNode(node), AbsClaim(nc), nt.obs.pods, nt.obs.vas, PodPV, GonePids, Now, StuckAfter) ]_vars
+          => G_C09_NodeFinalizer(AbsNode(node), AbsClaim(nc), nt.obsD, nt.obs.pods, nt.obs.vas, PodPV, GonePids, Now, StuckAfter) ]_vars
 Act_C09_ClaimFinalizer ==
     [][ (nc.exists /\ nc.fin /\ ~nc'.exists /\ lc.pc = "removeFin" /\ ~lostLaunch)
           => G_C09_ClaimFinalizer(AbsClaim(nc), NodePids, Created, GonePids) ]_vars
